@@ -373,8 +373,8 @@ def macroexpand(tree, module, compiler=None, once=False, result_ok=True):
         if fn.startswith('hy.R.'):
             # Special syntax for a one-shot `require`.
             req_from, _, fn = fn[len('hy.R.'):].partition('.')
-            req_from = slashes2dots(req_from)
             try:
+                req_from = slashes2dots(req_from)
                 m = importlib.import_module(req_from)._hy_macros[fn]
             except ImportError as e:
                 raise HyRequireError(e.args[0]).with_traceback(None)
